@@ -209,7 +209,7 @@ def gen_app_prog(rng, P, ipc, nthr=None, per=2, discard=True):
     return "_".join(ths)
 
 
-TDEF = {"k": "", "t": 0, "i": 0, "f": 0, "rot": False, "ents": [], "prog": [], "cap": 0, "status": ""}
+TDEF = {"k": "", "t": 0, "i": 0, "f": 0, "rot": False, "cnt": 0, "ents": [], "prog": [], "cap": 0, "iovmax": 1024, "status": ""}
 
 
 def parse_app_prog(s):
@@ -220,9 +220,9 @@ def parse_app_prog(s):
             if not o:
                 continue
             if o[0] == "w":
-                ops.append({"k": "w", "f": int(o[1:o.index("x")])})
+                ops.append({"k": "w", "f": int(o[1:o.index("x")]), "s": 1})
             else:
-                ops.append({"k": "d", "f": 0})
+                ops.append({"k": "d", "f": 0, "s": 1})
         prog.append(ops)
     return prog
 
@@ -233,26 +233,32 @@ def app_trace_lines(events):
     ev = merge_parts(events)
     c = consts_of(ev) or {}
     owner = {}
+    prog = []
     for e in ev:
         k = e.get("k")
         if k == "reset":
-            out.append(dict(TDEF, k="reset", prog=parse_app_prog(e["params"]["prog"]), cap=int(c.get("cap", 0))))
+            prog = parse_app_prog(e["params"]["prog"])
+            out.append(dict(TDEF, k="reset", prog=prog, cap=int(c.get("cap", 0)), iovmax=int(c.get("iovmax", 1024))))
         elif k in ("wcall", "dcall"):
             for pg in e.get("pages", []):
                 owner[pg] = e["e"]
-            out.append(dict(TDEF, k=k, t=e["e"] // 10, i=e["e"] % 10, f=e.get("f", 0)))
+            t, i = e["e"] // 10, e["e"] % 10
+            if 1 <= t <= len(prog) and 1 <= i <= len(prog[t - 1]):
+                prog[t - 1][i - 1]["s"] = max(1, len(e.get("pages", [])))   # segments of the real entry (same dicts as in the reset line)
+            out.append(dict(TDEF, k=k, t=t, i=i, f=e.get("f", 0)))
         elif k in ("wret", "dret"):
             out.append(dict(TDEF, k=k, t=e["e"] // 10, i=e["e"] % 10))
         elif k == "check":
             out.append(dict(TDEF, k="check", f=e["f"], rot=e["rot"]))
         elif k == "writev":
             ents = []
-            for g in triples(e.get("segs", [])):
+            sg = triples(e.get("segs", []))
+            for g in sg:
                 en = owner.get(g[0], 0)
                 pair = [en // 10, en % 10]
                 if not ents or ents[-1] != pair:
                     ents.append(pair)
-            out.append(dict(TDEF, k="writev", f=e["f"], ents=ents))
+            out.append(dict(TDEF, k="writev", f=e["f"], cnt=len(sg), ents=ents))
         elif k in ("ccall", "cret"):
             out.append(dict(TDEF, k=k))
         elif k == "end":
